@@ -32,9 +32,10 @@ func refScan(src string) (items []refItem, ok bool) {
 	}
 	last := 0
 	if strings.HasPrefix(src, "#!") {
+		// the shebang line ends at the first LF (a lone CR does not end it) or with the source
 		n := strings.IndexByte(src, '\n')
 		if n < 0 {
-			return nil, false
+			n = len(src) - 1
 		}
 		items = append(items, refItem{0, n + 1, "comment", ""})
 		i, last = n+1, n+1
